@@ -20,7 +20,38 @@ RULE = ('case = initial contents of the five regions + a history of 1-30 accesso
 ASSUMPTIONS = ['in-contract arguments are the documented ranges (docstrings): ids 0-255/0-63, cells 0-127 x 0-63, colours 0-15 or '
                'TRANSPARENT, flags 0-255, non-negative offsets; out-of-contract calls are compared model-vs-implementation only']
 PARTIAL = ''
-CLAIM = None   # set below once the theorems exist
+CLAIM = dict(
+    text=("Theorems (Coq, closed under the global context). C17_refines: for every well-formed memory (five regions of the "
+          "right sizes holding bytes) and every in-contract call of any of the 18 accessors - get_sprite/set_sprite, map "
+          "get/set cell, get/set_rect_tiles, the four flag ops, get/set note, sfx get/set properties, music get/set channel, "
+          "get/set properties - with any id / coordinates / offsets, rows of any number, length and raggedness, any overhang "
+          "across the right or bottom edge, TRANSPARENT pixels and None fields, the model of the code never raises and "
+          "returns exactly the value and the memory that the plain model of the documented semantics (Spec/PlainMem.v: "
+          "pixels, cells with rows 32-63 in gfx bytes 4096.., flags, note words, properties, channels) predicts; the result "
+          "is again well formed. C17_history: the same for every sequence of such calls. C17_frame / C17_frame_len / "
+          "C17_getter_pure (about the plain model, no hypotheses): every byte of every region outside the explicit "
+          "footprint of a call keeps its value - the footprint of set_sprite is exactly the bytes of its non-transparent, "
+          "non-clipped pixels, so clipped data neither wraps into the next row nor alters other cells - no region changes "
+          "size, getters change nothing. C17_set_sprite_pixels / C17_set_rect_cells: after set_sprite every pixel of the "
+          "sheet (after set_rect_tiles every cell of the map, rows 32-63 read through sprite memory) holds the block's value "
+          "at that offset if the ragged block has a non-TRANSPARENT value there and its old value otherwise (read-back, "
+          "frame, clipping, transparency in one per-cell equation). Get-after-set laws: C17_pixel_readback, C17_cell_readback (incl. the shared "
+          "rows), C17_mapget_after_mapset, C17_flagget_after_flagreset, C17_noteget_after_noteset (None fields keep their "
+          "value), C17_changet_after_chanset. Bit-level facts are complete vm_compute sweeps over the regenerated kernels "
+          "(all bytes, all byte pairs for flags, all 65,536 note words, all note-field updates); loops by induction with "
+          "invariants. Tie: kernels (index expressions, masks, clip tests, asserts) regenerated from gfx.py, map.py, "
+          "gff.py, sfx.py, music.py on every run and self-tested in Coq; the hand-modelled loops are run extracted against "
+          "the real Game object on generated edge-biased histories (values after every call and the whole memory), and "
+          "the extracted plain model (holds_C17_seq, built from Spec/ only) judges the implementation's real observations."),
+    note=("Three clipping defects found by this check were repaired in the implementation (findings/known_C17.json, fixed): "
+          "set_sprite clipped with > 128 (column 128 wrapped into the next row, row 128 raised IndexError), set_rect_tiles "
+          "clipped rows with > 127 (AssertionError below row 63), get_rect_tiles asserted instead of zero-filling below the "
+          "map. Trusted: Coq kernel+VM, translator, extraction, OCaml glue, Spec/PlainMem.v as a faithful reading of the "
+          "docstrings and the PICO-8 memory layout, the in_contract ranges. Out-of-contract calls are only compared "
+          "model-vs-implementation (exception kinds); a Map without a Gfx attached (has_gfx = false) is in the model and "
+          "the correspondence but not in the theorems."),
+    technique='Coq refinement proof (sweeps on regenerated kernels + induction over loops) + correspondence + extracted plain model as monitor',
+    design_ref='8 C17')
 OPS_GET = ['gs', 'mgc', 'mgr', 'fg', 'sgn', 'sgp', 'mugc', 'mugp']
 
 
